@@ -140,6 +140,15 @@ class C18(Machine):
             grid['h' + d] = [100.0] * 8
         grid['origin'] = [-400.0, -400.0, -900.0]
         layered = rng.random() < 0.15
+        nkeys = len(SOLVER) + len(NOISE) + len(GRIDDING) + len(LAYERED) + 10
+        single = rng.random() < 0.5
+        if single:
+            # the key of a single-key run cycles with the run index; a key
+            # of the layered mode needs a survey that mode supports
+            j = index % nkeys
+            lo = len(SOLVER) + len(NOISE) + len(GRIDDING)
+            if lo <= j < lo + len(LAYERED) or j == nkeys - 5:
+                layered = True
         model = gen.gen_model(rng, cases=['isotropic', 'VTI'] if layered
                               else gen.CASES)
         survey = gen.gen_survey(
@@ -148,6 +157,9 @@ class C18(Machine):
             ('dipole', 'point', 'wire'),
             rec_kinds=('e', 'm') if layered else ('e', 'm', 'erel'))
         survey['nan_frac'] = rng.choice([0.0, 0.0, 0.3])
+        # receivers / sources without any observation (for remove_empty)
+        survey['empty_rec'] = rng.random() < 0.4
+        survey['empty_src'] = rng.random() < 0.2
         cfg = {'grid': grid, 'model': model, 'survey': survey,
                'sfmt': rng.choice(FMTS), 'mfmt': rng.choice(FMTS),
                'policy': rng.choice(simpool.POLICIES)}
@@ -163,7 +175,8 @@ class C18(Machine):
             [('data', k) for k in ('sources', 'receivers', 'frequencies',
                                    'remove_empty')]
         ninv = rng.choice([1, 1, 2, 2, 3, 4])
-        single = rng.random() < 0.5
+        assert len(allkeys) == nkeys and allkeys[nkeys - 5] == (
+            'simulation', 'layered')
         if single:
             ninv = 1
         invs = []
@@ -255,6 +268,9 @@ class C18(Machine):
             a['nproc'] = rng.choice([1, 2, 3])
         if inv.get('layered_run') and not sec['simulation'].get('layered'):
             a['layered'] = True
+            if rng.random() < 0.5:
+                # the config file says the opposite: the argument wins
+                sec['simulation']['layered'] = False
         for k in ('survey', 'model', 'output'):
             # 'file': only in the config file, 'arg': only on the command
             # line, 'both': config names a wrong file, the argument the right
@@ -427,7 +443,7 @@ class C18(Machine):
             twin['sim']['max_workers'] = a['nproc']
         if a.get('layered'):
             argv += ['--layered']
-            twin['sim']['layered'] = True
+            twin['sim']['layered'] = True      # terminal beats config file
         if 'name' not in twin['sim']:
             twin['sim']['name'] = 'emg3d CLI run'
         if 'receiver_interpolation' not in twin['sim'] and \
